@@ -31,7 +31,7 @@ CFG = dict(
                "window gives, for every pair of equal-length series, window >= 1, min_periods, position and both driver "
                "bodies, closed-form theorems output_i = textbook statistic of the window for all 13 entry points; the OLS "
                "coefficients are characterised by the normal equations, uniqueness and SSE-minimality; a perfect linear "
-               "window has zero residuals (also end to end on the two-series model). Audit (20 more theorems, "
+               "window has zero residuals (also end to end on the two-series model). Audit (21 more theorems, "
                "Proofs/Audit04.v; notes/C04.md has the clause x theorem matrix): the hypotheses 'window >= 1' and 'equal "
                "lengths' are replaced by a total description of the two-series entry points - the first failing check of "
                "the code (index body: length assertion, then window assertion; iterator body: window assertion on the "
